@@ -174,3 +174,21 @@ Proof.
   apply (proj2 (Rltb_false s s)). apply Rle_refl.
 Qed.
 Print Assumptions C03_dualproj_at_the_threshold.
+
+(* ---- THE minimiser named in the statement exists (added): a sup-norm-Lipschitz function attains its minimum on a box
+   (induction on the dimension with one-dimensional compactness only, no choice axiom); the regularised form is coercive,
+   so its feasible sublevel set lies in a box.  With C03_min_unique: exactly one minimiser, on BOTH sides of the norm_eps
+   branch.  The QP oracle's contract `is_min ... (qp M u)` of the theorems above is therefore satisfiable for every input ---- *)
+From TJ.proofs Require Import QPMinExists.
+Theorem C03_minimiser_exists_and_is_unique : forall n J s ne re u, wfmat n J ->
+  (nltb RN s ne = false -> (0 < s)%R) -> (0 < re)%R -> length u = length J ->
+  exists w, is_min (length J) (reg_norm_gramian RN (gramR J) s ne re) u w /\
+    forall w', is_min (length J) (reg_norm_gramian RN (gramR J) s ne re) u w' -> w' = w.
+Proof. exact qp_min_exists_unique. Qed.
+Print Assumptions C03_minimiser_exists_and_is_unique.
+Theorem C03_lipschitz_functions_attain_their_minimum_on_boxes : forall m (lo hi : list R) (f : list R -> R) (L : R),
+  length lo = m -> length hi = m -> Forall2 Rle lo hi -> (0 <= L)%R ->
+  (forall v v', inbox lo hi v -> inbox lo hi v' -> (f v - f v' <= L * l1 (vsubR v v'))%R) ->
+  exists w, inbox lo hi w /\ forall v, inbox lo hi v -> (f w <= f v)%R.
+Proof. exact box_min_exists. Qed.
+Print Assumptions C03_lipschitz_functions_attain_their_minimum_on_boxes.
